@@ -1887,7 +1887,7 @@ fn main() {
         Space::Seq { n: n_aw, wrapped: true },
         Space::Seq { n: n_a, wrapped: false },
     ];
-    let sweep_budget = Duration::from_secs(tier.pick(40, 13 * 60));
+    let sweep_budget = Duration::from_secs(tier.pick(35, 12 * 60));
     let deadline = Instant::now() + sweep_budget;
     let results: Vec<SpaceResult> = spaces.iter().map(|s| run_space(s, deadline)).collect();
 
@@ -2139,7 +2139,7 @@ fn main() {
     rep.set("evaluations", evaluations);
     rep.set("front_end_runs", evaluations * 2);
     rep.set("distinct_nontrivial", nontrivial);
-    rep.set("rule", "every enumerated input is parsed twice (without and with a glyph map); error-free trees are validated with an empty and a 233-glyph map. Non-trivial = the tree parsed without a glyph map has a child node of the root not flagged as error, or at least 2 tokens that are not whitespace/comment. Distinct: a and aw inputs are distinct by construction (injective decoding, aw has a wrapper no a-string has); b strings that are empty or a single a-lexeme are not counted; c and d inputs are counted by the 64-bit hash of their text(s), and c texts that also occur in a or b are not counted");
+    rep.set("rule", "every enumerated input is parsed twice (without and with a glyph map); a tree parsed with the glyph map (fea-rs/test-data/simple_glyph_order.txt plus a-b, a-b-c, 0, s, test, é) and free of errors is validated with that map, one parsed without is validated with an empty map and with that map. Non-trivial = the tree parsed without a glyph map has a child node of the root not flagged as error, or at least 2 tokens that are not whitespace/comment. Distinct: a and aw inputs are distinct by construction (injective decoding, aw has a wrapper no a-string has); b strings that are empty or a single a-lexeme are not counted; c and d inputs are counted by the 64-bit hash of their text(s), and c texts that also occur in a or b are not counted");
     rep.set("spaces", Value::Object(per_space));
     rep.set("samples", samples);
     rep.set("exhaustive", exhaustive);
